@@ -32,6 +32,35 @@ RULE = ("random histories (12-26 ops) of member creation/deletion/renaming and b
 SPECIAL = {"_self", "_space", "_model", "__builtins__"}
 
 
+def sanity_worklist_key(m, err):
+    """finding C12-check-sanity-same-short-name: `SpaceManager._check_sanity` keeps its work list in a dict keyed by
+    the short name of the space, so of two pending spaces of one name (B.X and B.r.X) one is never visited and the
+    final `assert not nodes` fails on a sound model.  Recognised exactly: the failing assertion is that one, and the
+    same walk with a list as work list satisfies every assertion of the method."""
+    try:
+        tb = err.__traceback__
+        while tb.tb_next is not None:
+            tb = tb.tb_next
+        code = tb.tb_frame.f_code
+        if code.co_name != "_check_sanity" or not code.co_filename.endswith("model.py"):
+            return None
+        import linecache
+        if "assert not nodes" not in linecache.getline(code.co_filename, tb.tb_lineno):
+            return None
+        mgr = m._impl.spmgr
+        nodes = set(mgr._graph.nodes)
+        todo = list(m._impl._all_spaces.items())
+        while todo:
+            k, v = todo.pop()
+            if not (k == v.name and v.idstr in nodes and v is mgr._graph.nodes[v.idstr]["space"]):
+                return None
+            nodes.remove(v.idstr)
+            todo.extend(v.named_spaces.items())
+        return "C12-check-sanity-same-short-name" if not nodes else None
+    except Exception:   # noqa
+        return None
+
+
 class H(S.Hooks):
     def start(self, live, stats):
         self.clash = False
@@ -90,7 +119,8 @@ class H(S.Hooks):
             with quiet():
                 mx.core.mxsys._check_sanity()
         except AssertionError as e:
-            out.fail("the library's own consistency check fails after %s: %r" % (op[0], e), hist)
+            out.fail("the library's own consistency check fails after %s: %r" % (op[0], e), hist,
+                     key=sanity_worklist_key(live.m, e))
         except Exception as e:
             out.fail("the library's own consistency check raised %r after %s" % (e, op[0]), hist)
 
@@ -181,7 +211,9 @@ def clash_family():
 
 
 def run(ctx, out):
-    stats = S.run_struct(ctx, out, "C12", CFG, H, 80, 1500, RULE)
+    stats = S.run_struct(ctx, out, "C12", CFG, H, 80, 1500, RULE + (
+        "; plus name-clash histories (struct_props.gen_clash): cells, references, child spaces, model-level references "
+        "and top-level spaces all named from one alphabet of four names"), clash=(40, 800))
     fam = clash_family()
     refused = 0
     for label, ops in fam:
